@@ -143,6 +143,49 @@ class CoopEvent:
         return False, None
 
 
+def routing_realms(s0: int, s1: int, ri: int, order: bool) -> bool:
+    """
+    pre: 0 <= s0 < len(CSTATES) and 0 <= s1 < len(CSTATES) and 0 <= ri <= 2
+    post: _
+    """
+    hx.begin()
+    states = [hx.concretize_range(s0, 0, len(CSTATES)), hx.concretize_range(s1, 0, len(CSTATES))]
+    realms = ["a.realm", "b.realm"]
+    realm = (realms + [B.REALM])[hx.concretize_range(ri, 0, 3)]
+    inputs = (s0, s1, ri, order)
+    try:
+        # one application whose two peers live in different realms (each peer is configured for its own realm only)
+        b = B.Bench(n_peers=0, apps=())
+        n = b.node
+        names = ["pa.a.realm", "pb.b.realm"]
+        peers = [n.add_peer("aaa://" + names[i], realms[i], ip_addresses=["10.0.2.%d" % (i + 1)]) for i in (0, 1)]
+        app = B.RecApp(4, is_auth_application=True)
+        n.add_application(app, list(reversed(peers)) if order else peers)
+        conns = []
+        for i in (0, 1):
+            st = CSTATES[states[i]]
+            if st is None:
+                conns.append(None)
+                continue
+            c, s = b.accept("10.0.2.%d" % (i + 1))
+            b.inject(c, B.cer(names[i], hbh=10 + i, e2e=10 + i, realm=realms[i]))
+            drain(c)
+            c.state = st
+            conns.append(c)
+        req = B.ccr(B.NODE_HOST, 0, 801, realm=realm)
+        try:
+            conn, _m = n.route_request(app, req)
+            res = conns.index(conn)
+        except B.NotRoutable:
+            res = "NotRoutable"
+    except Exception as e:
+        return hx.fail(inputs, "raised %s: %s" % (type(e).__name__, str(e)[:80]))
+    ready = [conns[i] is not None and CSTATES[states[i]] in B.PEER_READY_STATES for i in (0, 1)]
+    elig = [i for i in (0, 1) if realms[i] == realm and ready[i]]
+    exp = elig[0] if elig else "NotRoutable"
+    return hx.check(inputs, (res,), (exp,), "a request for realm %s goes to a ready peer configured for that realm, or is refused" % realm)
+
+
 REG = {}
 SHARED = ("_answer_waiting", "send_message", "route_request", "wait", "answer", "waiting", "end_to_end_seq", "hop_by_hop_identifier")
 SEND_REQUEST, SEND_REQUEST_SRC = coop.coop(Application.send_request, waiters=("wait",), registry=REG, shared=SHARED)
@@ -280,6 +323,8 @@ def specs(tier, seed, carve):
             for md in (0, 5):
                 out.append(dict(id="routing3/A%d_B%d_D%d" % (a, bm, md), fn="routing", params={"npeers": 3, "maskA": a, "maskB": bm, "maskD": md, "seq0": 2}, timeout=3000,
                                 bound="3 peers; A on %s, B on %s, default %s; all 4^3 state combinations; 3 realms; both senders" % (bin(a), bin(bm), bin(md))))
+    out.append(dict(id="routing_realms", fn="routing_realms", params={}, timeout=300,
+                    bound="one application with two peers in two different realms (registered in either order), every combination of connection states, destination realm in {realm a, realm b, the node's own}"))
     slots = 1 if q else 2
     for order in (False, True):
         out.append(dict(id="correlation2/o%d/p%d" % (order, slots), fn="correlation", params={"slots": slots, "maxstep": 40, "order": order, "dup": False, "two_conns": True}, timeout=1200 if q else 6000,
